@@ -86,6 +86,15 @@ func runC20(c *Ctx) {
 		c.MustCut("R20.2", "slot write ⊣ {slot absent}", f, slotMapWrite, CutSpec{Edges: FactEdge("nil(lookup(call:(*api/key_storage.Storage).GetKeySlots(param#0.underlying),param#1))")}, 1)
 		c.MustCut("R20.2", "slot write ⊣ {getKey(old slot) ok}", f, slotMapWrite, CutSpec{Edges: getKeyOK}, 1)
 
+		// failure atomicity: once the new slot is in the map, the operation either succeeds or takes it out again
+		undo := func(in ssa.Instruction) bool {
+			call, ok := in.(*ssa.Call)
+
+			return ok && p.CalleeName(call) == "builtin.delete" && slotMapWrite(in) && p.Desc(call.Call.Args[1]) == "param#1"
+		}
+		isInsert := func(in ssa.Instruction) bool { _, ok := in.(*ssa.MapUpdate); return ok && slotMapWrite(in) }
+		c.MustFollow("R20.2", "slot inserted ⇒ no failure return unless it is deleted again", f, isInsert, ReturnsNonNil(0), CutSpec{Nodes: undo}, 1)
+
 		for _, in := range Find(f, slotMapWrite) {
 			if mu, ok := in.(*ssa.MapUpdate); ok {
 				c.Check(p.Desc(mu.Key) == "param#1", "R20.2", FuncName(f)+" :: writes the slot it checked", mu.Pos(), "newSlotID", "key is "+p.Desc(mu.Key))
